@@ -1,7 +1,31 @@
-(* GENERATED from /repo by harness/srcfacts on every run -- do not edit. *)
-From Coq Require Import ZArith.
+(* GENERATED from the source of the repository by harness/srcfacts on every run -- do not edit. *)
+From Coq Require Import ZArith List.
+Import ListNotations.
 Open Scope Z_scope.
-Definition NoExpiration : Z := -2000000000.
-Definition DefaultExpiration : Z := -1000000000.
+
+(* package cache *)
+Definition NoExpiration : Z := (-2000000000).
+Definition DefaultExpiration : Z := (-1000000000).
 Definition DefaultCleanupInterval : Z := 10000000000.
 Definition DefaultMinCapacity : Z := 96.
+
+(* package xsync *)
+Definition mapGrowHint : Z := 0.
+Definition mapShrinkHint : Z := 1.
+Definition mapClearHint : Z := 2.
+Definition entriesPerMapBucket : Z := 3.
+Definition mapShrinkFraction : Z := 128.
+Definition mapLoadFactor_num : Z := 3.
+Definition mapLoadFactor_den : Z := 4.
+Definition defaultMinMapTableLen : Z := 32.
+Definition minMapCounterLen : Z := 8.
+Definition maxMapCounterLen : Z := 32.
+Definition topHashMask : Z := 18446726481523507200.
+Definition entriesPerMapOfBucket : Z := 5.
+Definition defaultMeta : Z := 9259542123273814144.
+Definition metaMask : Z := 1099511627775.
+Definition defaultMetaMasked : Z := 551911719040.
+Definition emptyMetaSlot : Z := 128.
+Definition cacheLineSize : Z := 64.
+Definition topHashEntryMasks : list Z := [18446726481523507200; 17592169267200; 16777200].
+
